@@ -48,7 +48,7 @@ func init() {
 		Rule: "one state = one feasible path of a history (source vs compiled; three calls through one compiled profile) under one assignment of per-call stub outcomes",
 		Harnesses: func(tier string) []HarnessSpec {
 			return []HarnessSpec{
-				{Pkg: "internal/validator", Fn: "VerifC09Equiv", Reach: []string{"compile-failed", "validated-both"}, Bounds: map[string]any{"runs": 2}},
+				{Pkg: "internal/validator", Fn: "VerifC09Equiv", Native: "VerifC09EquivNative", Reach: []string{"compile-failed", "validated-both"}, Bounds: map[string]any{"runs": 2}},
 				{Pkg: "internal/validator", Fn: "VerifC09History", CrossCheck: true, Native: "VerifC09HistoryNative", Reach: []string{"validated-3"}, Bounds: map[string]any{"history_length": 3}},
 				{Pkg: "internal/validator", Fn: "VerifC09IndexFrame", Native: "VerifC09IndexFrameNative", Reach: []string{"indexed"}, Bounds: map[string]any{"graph_shapes": "the catalogue of C17 (type forms x lexical / source-information layouts)"}},
 			}
@@ -90,12 +90,15 @@ func init() {
 					{Pkg: "internal/parser/path", Fn: "VerifC16Parse5", Reach: []string{"accepted", "accepted-sentence", "rejected"}, Bounds: map[string]any{"length": "1..5 ASCII bytes", "paren_depth": 3}},
 					{Pkg: "internal/parser/path", Fn: "VerifC16Variants5", Reach: []string{"sentence"}, Bounds: map[string]any{"length": "1..5 ASCII bytes"}},
 					{Pkg: "internal/parser/path", Fn: "VerifC16Edits", CrossCheck: true, Reach: []string{"accepted", "rejected"}, Bounds: map[string]any{"sentences": 10, "edits": "insert/replace one symbolic byte at any position, delete one byte, append two symbolic bytes"}},
+					{Pkg: "internal/parser/path", Fn: "VerifC16Compose2", Reach: []string{"accepted", "rejected"}, Bounds: map[string]any{"composition": "2 predicates from {a.b, c.d} (repeats included), one symbolic operator byte from {| / blank ^ ( )} between them, an optional symbolic modifier byte from {^ blank * ) |} after each"}},
+					{Pkg: "internal/parser/path", Fn: "VerifC16Compose3", Reach: []string{"accepted", "rejected"}, Bounds: map[string]any{"composition": "3 predicates from {a.b, c.d} (repeats included), one symbolic operator byte from {| / blank ^ ( )} between them, an optional symbolic modifier byte from {^ blank * ) |} after each"}},
 				}
 			}
 			return []HarnessSpec{
 				{Pkg: "internal/parser/path", Fn: "VerifC16Parse4", Reach: []string{"accepted", "accepted-sentence", "rejected"}, Bounds: map[string]any{"length": "1..4 ASCII bytes", "paren_depth": 3}},
 				{Pkg: "internal/parser/path", Fn: "VerifC16Variants3", Reach: []string{"sentence"}, Bounds: map[string]any{"length": "1..3 ASCII bytes"}},
 				{Pkg: "internal/parser/path", Fn: "VerifC16Edits", CrossCheck: true, Reach: []string{"accepted", "rejected"}, Bounds: map[string]any{"sentences": 10, "edits": "insert/replace one symbolic byte at any position, delete one byte, append two symbolic bytes"}},
+				{Pkg: "internal/parser/path", Fn: "VerifC16Compose2", Reach: []string{"accepted", "rejected"}, Bounds: map[string]any{"composition": "2 predicates from {a.b, c.d} (repeats included), one symbolic operator byte from {| / blank ^ ( )} between them, an optional symbolic modifier byte from {^ blank * ) |} after each"}},
 			}
 		},
 		Assumptions: []string{
@@ -111,7 +114,9 @@ func init() {
 		Rule: "one state = one feasible path of the real text-pasting code (profileName, wrapBranch/sanitizedMessage, ParseMessageExpression, Generate*SetRule, GeneratePattern) plus the reference Rego string scanner, on symbolic text bytes; each path is a class of texts (by position of quotes, backslashes, control characters, percent signs, backticks) decided by z3",
 		Harnesses: func(tier string) []HarnessSpec {
 			g := "internal/generator"
-			b := func(n int) map[string]any { return map[string]any{"text_length": "0.." + string(rune('0'+n)) + " symbolic bytes (printable ASCII, tab, newline)"} }
+			b := func(n int) map[string]any {
+				return map[string]any{"text_length": "0.." + string(rune('0'+n)) + " symbolic bytes (all 128 ASCII values: control characters and DEL included)"}
+			}
 			if tier == "thorough" {
 				return []HarnessSpec{
 					{Pkg: g, Fn: "VerifC13ProfileName4", CrossCheck: true, Reach: []string{"lexed"}, Bounds: b(4)},
@@ -122,6 +127,7 @@ func init() {
 					{Pkg: g, Fn: "VerifC13Pattern3", Reach: []string{"lexed"}, Bounds: b(3)},
 					{Pkg: g, Fn: "VerifC13ParseMessage", Reach: []string{"parsed"}},
 					{Pkg: g, Fn: "VerifC13MessageBraces4", Reach: []string{"lexed"}, Bounds: map[string]any{"text": "0..4 characters from the representative alphabet (braces included)"}},
+					{Pkg: g, Fn: "VerifC13EscapeBytes4", Reach: []string{"lexed"}, Bounds: map[string]any{"text": "every well-formed UTF-8 text of 1..4 bytes (all 256 byte values: control characters, DEL, multi-byte characters) through the escaper behind every pasted text"}},
 					{Pkg: g, Fn: "VerifC13TemplateTokens", Reach: []string{"generated"}, Bounds: map[string]any{"tokens": "$message $result $node $traceNode", "positions": "pattern, in value, message, validation name"}},
 					{Pkg: g, Fn: "VerifC13MessageTwoVars", Reach: []string{"lexed"}, Bounds: map[string]any{"placeholders": "two: the same property twice or two properties", "text": "0..1 characters before, between and after"}},
 				}
@@ -134,12 +140,13 @@ func init() {
 				{Pkg: g, Fn: "VerifC13SetValues2", Reach: []string{"lexed"}, Bounds: b(2)},
 				{Pkg: g, Fn: "VerifC13Pattern2", Reach: []string{"lexed"}, Bounds: b(2)},
 				{Pkg: g, Fn: "VerifC13MessageBraces3", Reach: []string{"lexed"}, Bounds: map[string]any{"text": "0..3 characters from the representative alphabet (braces included)"}},
+				{Pkg: g, Fn: "VerifC13EscapeBytes3", Reach: []string{"lexed"}, Bounds: map[string]any{"text": "every well-formed UTF-8 text of 1..3 bytes (all 256 byte values: control characters, DEL, multi-byte characters) through the escaper behind every pasted text"}},
 				{Pkg: g, Fn: "VerifC13TemplateTokens", Reach: []string{"generated"}, Bounds: map[string]any{"tokens": "$message $result $node $traceNode", "positions": "pattern, in value, message, validation name"}},
 				{Pkg: g, Fn: "VerifC13MessageTwoVars", Reach: []string{"lexed"}, Bounds: map[string]any{"placeholders": "two: the same property twice or two properties", "text": "0..1 characters before, between and after"}},
 			}
 		},
 		Assumptions: []string{
-			"texts are ASCII: printable characters, tab and newline; bytes >= 0x80 are outside the bound (they are copied through byte-transparently by the code under test)",
+			"texts of the position-specific harnesses are ASCII (all 128 values); multi-byte characters are covered for the shared escaper only (VerifC13EscapeBytes: every well-formed UTF-8 text up to the bound), elsewhere bytes >= 0x80 are outside the bound",
 			"the reference scanner in the harness implements Rego's string literal syntax (JSON escapes, raw back-quoted strings, raw control characters illegal) and fmt's %% / %v verbs",
 			"ParseMessageExpression uses regexp, which runs natively on concrete text: there the bytes range over a 12-character representative alphabet (a \" \\ % ' { } space newline v tab backtick) instead of being solver variables",
 			"regosym part: substitution of one placeholder by the focus node's single scalar value (string with quote/percent, integer, boolean, float) or `null` when absent, for 4 message texts; several values or references as placeholder values are undocumented and not compared",
@@ -173,10 +180,12 @@ func init() {
 			return []HarnessSpec{
 				{Pkg: "internal/validator", Fn: "VerifC06Generate", Native: "VerifC06GenerateNative", Reach: []string{"generated-twice"}, Bounds: map[string]any{"profiles": 4, "map_orders": "all maps reversed | all rotated | one iteration site arbitrarily permuted (n<=4: all n!)"}},
 				{Pkg: "internal/validator", Fn: "VerifC06Report", Reach: []string{"built-twice"}, Bounds: map[string]any{"results": "1..2 violations + 1 warning, nested sub-results and locations"}},
+				{Pkg: "pkg", Fn: "VerifC06NoHiddenState", Native: "VerifC06NoHiddenStateNative", Reach: []string{"returned"}, Bounds: map[string]any{"entry_points": 4, "profiles": "5 small (valid and failing) + 1 using most of the profile language with declared prefixes"}},
 			}
 		},
 		Assumptions: []string{
 			"the only sources of nondeterminism in repository code are Go map iteration order and the process-wide identifier counter (reset = fresh process); the clock is an input",
+			"hidden state: VerifC06NoHiddenState shows (interpreter-level write tracking) that no entry point stores into package-level state reachable by a later call, the atomic identifier counter apart; with that, repeated calls are a function of their inputs",
 			"map-order bound: per path either every map is reversed, every map is rotated, or exactly one iteration site deviates arbitrarily; two independently deviating sites are outside the bound",
 			"yaml.v3, encoding/json (sorted keys) and OPA evaluation are deterministic functions of their inputs (dependency contract); goroutine interleavings are the subject of C10",
 		},
@@ -212,7 +221,7 @@ func init() {
 		Rule: "one state = one feasible path of an entry point (CompileProfile, Validate, compile+ValidateCompiled, ValidateWithConfiguration) x profile text x stub outcomes, executed with every store checked against the set of locations reachable from package-level variables",
 		Harnesses: func(tier string) []HarnessSpec {
 			return []HarnessSpec{
-				{Pkg: "pkg", Fn: "VerifC10WriteSet", Native: "VerifC10WriteSetNative", Race: true, Reach: []string{"returned"}, Bounds: map[string]any{"entry_points": 4, "profiles": 3}},
+				{Pkg: "pkg", Fn: "VerifC10WriteSet", Native: "VerifC10WriteSetNative", Race: true, Reach: []string{"returned"}, Bounds: map[string]any{"entry_points": 4, "profiles": "5 small (valid and failing) + 1 using most of the profile language with declared prefixes"}},
 			}
 		},
 		Assumptions: []string{
